@@ -30,6 +30,7 @@ func collect(repo string, f *facts) {
 	reloadFacts(f)
 	stopFacts(f)
 	orderFacts(f)
+	e2eFacts(f)
 }
 
 // ---- C16: Must… / panic sites in constructors ----
@@ -1465,4 +1466,51 @@ func orderFacts(f *facts) {
 		}
 	}
 	f.strs["order_input_sources"] = srcs
+}
+
+// ---- C01: end-to-end mechanisms ----
+func e2eFacts(f *facts) {
+	f.note["e2e_listener_final_flush"] = "tcpLineListener.runConnection: after the read loop ends (any path) the reader is flushed completely and the sink flushed and closed (calls present in the function body outside the loop's timeout branches: FlushAll, a Flush after the loop or on the error path, Close)"
+	var ff []string
+	if fd := fn("input/tcplistener/tcplinelistener.go", "runConnection", "tcpLineListener"); fd != nil {
+		hasFlushAll, trailingFlush, closeCall := false, false, false
+		// statements after the for loop
+		afterLoop := false
+		for _, st := range fd.Body.List {
+			if _, ok := st.(*ast.ForStmt); ok {
+				afterLoop = true
+				continue
+			}
+			if afterLoop && strings.Contains(src(st), "recvChan.Flush()") {
+				trailingFlush = true
+			}
+		}
+		t := src(fd.Body)
+		hasFlushAll = strings.Contains(t, "mlineReader.FlushAll()")
+		closeCall = strings.Contains(t, "recvChan.Close()")
+		if hasFlushAll {
+			ff = append(ff, "mlineReader.FlushAll")
+		}
+		if trailingFlush {
+			ff = append(ff, "recvChan.Flush")
+		}
+		if closeCall {
+			ff = append(ff, "recvChan.Close")
+		}
+	}
+	f.strs["e2e_listener_final_flush"] = ff
+	f.note["e2e_recovery_scans"] = "obykeyset Config.StartOrchestrator: existing queue directories are listed for every output/buffer pair"
+	var rs []string
+	if fd := fn("orchestrate/obykeyset/config.go", "StartOrchestrator", "Config"); fd != nil {
+		inspect(fd.Body, func(n ast.Node) bool {
+			if r, ok := n.(*ast.RangeStmt); ok && src(r.X) == "args.OutputBufferPairs" {
+				rs = append(rs, "range args.OutputBufferPairs")
+				if strings.Contains(src(r.Body), ".ListBufferIDs(") && !strings.Contains(src(r.Body), "break") {
+					rs = append(rs, "ListBufferIDs")
+				}
+			}
+			return true
+		})
+	}
+	f.strs["e2e_recovery_scans"] = rs
 }
